@@ -116,16 +116,16 @@ def gen_chains(tier, rng):
                 continue
             rec(prefix + [a], a[2], depth - 1, r)
 
-    full_depth = 2 if tier == "quick" else 3
+    full_depth = 2        # exhaustive up to depth 2 in both tiers (depth 3 = 6300 chains: > 10 min of rustc)
     rec([], "I", full_depth, 0)
     exhaustive = len(chains)
     # seeded sample of deeper chains
-    want = 400 if tier == "quick" else 3000
+    want = 400 if tier == "quick" else 2500
     seen = {tuple(a[0] for a in c) for c in chains}
     tries = 0
     while want > 0 and tries < 200000:
         tries += 1
-        depth = rng.choice([3, 4] if tier == "quick" else [4, 5])
+        depth = rng.choice([3, 4] if tier == "quick" else [3, 3, 4, 4, 5])
         c, ty, nrev = [], "I", 0
         for _ in range(depth):
             opts = [a for a in by_from[ty] if not (a[0] == "rev" and nrev >= 1)]
@@ -277,7 +277,7 @@ fn inp_s(v: &[i64]) -> String { items(v) }
             out.write(so)
     ctx["extra"]["programs"] = len(funcs)
     ctx["extra"]["chains"] = len(chains)
-    ctx["extra"]["chains_exhaustive_depth"] = 2 if tier == "quick" else 3
+    ctx["extra"]["chains_exhaustive_depth"] = 2
     ctx["extra"]["chains_exhaustive"] = exhaustive
     ctx["extra"]["max_chain_depth"] = max(len(c) for c in chains)
     return tsv
